@@ -1047,8 +1047,15 @@ pub fn run_case(case: &Case) -> Vec<Value> {
                 StepIn::Run { p: rng.random_range(0..case.table.progs.len() as u32) }
             } else if x < pol.p_run + pol.p_noop {
                 if bridge && rng.random::<f64>() < 0.15 {
-                    // payloads beyond any "reasonable" size are still valid input
-                    StepIn::Big { n: [70_000, 300_000, 1_100_000][rng.random_range(0..3)] }
+                    // payloads beyond any "reasonable" size are still valid input.  (Not in long histories: the app
+                    // keeps every event in its model and the view is read after every call -- a few megabytes per
+                    // call for hundreds of calls.)
+                    let n = [70_000, 300_000, 1_100_000][rng.random_range(0..3)];
+                    if pol.max >= 100 {
+                        StepIn::Noop
+                    } else {
+                        StepIn::Big { n }
+                    }
                 } else {
                     StepIn::Noop
                 }
